@@ -11,8 +11,11 @@
 
   Hypotheses are explicit:
     * soundness (`gather_sound`, `gather_chained`, `forged_never_contained`, `dangling_never_contained`,
-      `waiting_sound`, `waiting_bounded`, `content_bound`, `verify_sound`, `unserialize_sound`) needs NOTHING — any
-      hash function (colliding or not), any cap, any order, any tokens;
+      `gather_return_sound`, `waiting_sound`, `waiting_bounded`, `verify_sound`, `unserialize_sound(_from)`,
+      `unserialize_true_all_held`) needs NOTHING — any hash function (colliding or not), any cap, any order, any tokens;
+    * `content_bound` has ONE hypothesis: every offered Token value carries no content or content that hashes to its
+      pointer — which is what every way of building a Token gives (`constructors_bound`, `receive_content_bound`,
+      `database_tuple_bound`, `create_bound`);
     * completeness / order independence need `HashInj C ts` (the hash separates the offered tokens) and
       `Fits C g cap Tree.empty ts` ("the bounded waiting area is not exceeded" on the orders compared);
       `fits_of_small` gives the latter for every order of at most `cap` tokens.
@@ -42,6 +45,13 @@ theorem gather_closed (ts : List Token) :
     ∀ e ∈ (gatherAll C g cap Tree.empty ts).els,
       e.valid C = true ∧ (e.prev = g ∨ hasId C (gatherAll C g cap Tree.empty ts).els e.prev = true) :=
   (gather_chained ts).closed
+
+/-- The return value of `gather_token` reports membership truthfully: a returned token (the offered one or the
+    stored shadow) means the offered token's hash is now a key of `elements`; `None` means no element was added. -/
+theorem gather_return_sound (tr : Tree) (t : Token) :
+    ((gatherKind C g tr t).isSome = true → hasId C (gather C g cap tr t).els (t.id C) = true) ∧
+    ((gatherKind C g tr t).isSome = false → (gather C g cap tr t).els = tr.els) :=
+  gather_return tr t
 
 /-- a token whose signature does not verify under the tree key (forged, or signed by another key) is never part -/
 theorem forged_never_contained (ts : List Token) (t : Token) (hv : t.valid C = false) :
@@ -82,6 +92,12 @@ theorem waiting_bounded (ts : List Token) : (gatherAll C g cap Tree.empty ts).un
 /-- at most `cap` offered tokens can never exceed the waiting area, in any order -/
 theorem fits_of_small (ts : List Token) (h : ts.length ≤ cap) : Fits C g cap Tree.empty ts :=
   fits_of_length Tree.empty ts (by simpa [Tree.empty] using h)
+
+/-- a sharper input-level condition: only offers that can ever wait count — signed by the tree key and not hanging
+    off genesis (forged / foreign tokens and roots never occupy the waiting area); duplicates are still counted, so
+    this asks for more than the code needs (it de-duplicates waiting tokens), see design.d/C16.md -/
+theorem fits_of_few_waiters (ts : List Token) (h : waiters C g ts ≤ cap) : Fits C g cap Tree.empty ts :=
+  fits_of_waiters Tree.empty ts (by simpa [Tree.empty] using h)
 
 /-! ### exactly the least fixpoint, hence the same for every arrival order -/
 
@@ -177,6 +193,34 @@ theorem constructors_bound (prev c chash sig : Bytes) :
   · intro c' hc'
     simp [Token.ofHash] at hc'
 
+/-- `from_database_tuple`: whatever row is loaded — content that does not hash to the stored pointer included — the
+    token carries no content or bound content, and its three signed fields are the row's -/
+theorem database_tuple_bound (prev sig chash : Bytes) (content : Option Bytes) :
+    (Token.ofDatabaseTuple C prev sig chash content).contentOk C ∧
+    (Token.ofDatabaseTuple C prev sig chash content).core = (prev, chash, sig) := by
+  cases content with
+  | none => exact ⟨(constructors_bound (C := C) prev [] chash sig).2, rfl⟩
+  | some c =>
+    refine ⟨(receive_content_bound _ c (constructors_bound (C := C) prev [] chash sig).2).1, ?_⟩
+    simp only [Token.ofDatabaseTuple]
+    rw [receiveContent_core]; rfl
+
+/-- … and a token with bound content survives `to_database_tuple` → `from_database_tuple` unchanged -/
+theorem database_roundtrip (t : Token) (ht : t.contentOk C) :
+    Token.ofDatabaseTuple C t.toDatabaseTuple.1 t.toDatabaseTuple.2.1 t.toDatabaseTuple.2.2.1
+      t.toDatabaseTuple.2.2.2 = t := by
+  obtain ⟨p, h, sg, c⟩ := t
+  cases c with
+  | none => rfl
+  | some c =>
+    have : C.hash c = h := ht c rfl
+    simp [Token.ofDatabaseTuple, Token.toDatabaseTuple, Token.ofHash, Token.receiveContent, this]
+
+/-- `Token.create` hangs the new token under its predecessor's hash and binds its content -/
+theorem create_bound (previous : Token) (content sig : Bytes) :
+    (Token.create C previous content sig).prev = previous.id C ∧ (Token.create C previous content sig).contentOk C :=
+  ⟨rfl, (constructors_bound (C := C) _ content [] sig).1⟩
+
 /-- Content binding: if every offered token object carries no content or content matching its pointer (which the
     constructors and `receive_content` guarantee), so does every element and every waiting token, always. -/
 theorem content_bound (ts : List Token) (h : ∀ t ∈ ts, t.contentOk C) :
@@ -229,12 +273,6 @@ theorem verify_complete (tr : Tree) (hc : Chained C g tr.els) (t : Token) (ht : 
   | none => simp [hw] at this
   | some path => rw [walk_budget_le tr.els (by omega) hw]; rfl
 
-/-- the code's behaviour for `maxdepth ≤ 0`, including the documented "-1": never True, never a path -/
-theorem verify_nonpositive (tr : Tree) (t : Token) (d : Int) (hd : d ≤ 0) :
-    verify C g tr t d = false ∧ rootPath C g tr t d = [] := by
-  have : d.toNat = 0 := by omega
-  simp [verify, rootPath, this, walk]
-
 /-! ### public serialisation -/
 
 /-- Round trip: the full public dump of a signed chain, read back into an empty tree of the same key, is accepted
@@ -246,13 +284,14 @@ theorem public_roundtrip (tr : Tree) (hc : Chained C g tr.els) (hw : ∀ t ∈ t
   rfl
 
 /-- … in particular for every tree that was built by `gather_token` from wire-sized tokens -/
-theorem public_roundtrip_history (ts : List Token) (hw : ∀ t ∈ ts, WireOk C t) :
+theorem public_roundtrip_history (ts : List Token) (hw : ∀ t ∈ ts, t.valid C = true → WireOk C t) :
     unserializePublic C g cap Tree.empty (serializeAll (gatherAll C g cap Tree.empty ts)) =
       (⟨(gatherAll C g cap Tree.empty ts).els.map Token.strip, []⟩, some true) := by
   apply public_roundtrip _ (gather_chained ts)
   intro e he
-  obtain ⟨o, ho, hc⟩ := (gather_sound (C := C) (g := g) (cap := cap) ts e he).off
-  exact (hw o ho).of_core hc
+  have hin := gather_sound (C := C) (g := g) (cap := cap) ts e he
+  obtain ⟨o, ho, hc⟩ := hin.off
+  exact (hw o ho (by rw [valid_of_core C hc]; exact hin.valid)).of_core hc
 
 /-- Round trip of a root path: `serialize_public(up_to)` of an element, read back into an empty tree, is parsed
     completely and rebuilds exactly the tokens of the element's root path (the chunks arrive child first, so they
@@ -310,13 +349,49 @@ theorem unserialize_sound (s : Bytes) :
   simp only [gatherFlags_fst]
   exact ⟨gather_chained _, gather_sound _⟩
 
-/-- the chunks are cut at multiples of 64 + sigLen; a short last chunk is the only way to get struct.error -/
-theorem unserialize_error_iff (tr : Tree) (s : Bytes) :
-    (unserializePublic C g cap tr s).2 = none ↔ (parseChunks C.sigLen s).2 = false := by
+/-- … and into a tree that already went through any history `ts0` (what `IdentityManager` does): the elements are in
+    the fixpoint of everything that tree was ever offered, the parsed chunks included -/
+theorem unserialize_sound_from (ts0 : List Token) (s : Bytes) :
+    ∀ e ∈ (unserializePublic C g cap (gatherAll C g cap Tree.empty ts0) s).1.els,
+      InTree C g (ts0 ++ (parseChunks C.sigLen s).1) e := by
   unfold unserializePublic
-  cases h : (parseChunks C.sigLen s).2 <;> simp [h]
+  simp only [gatherFlags_fst]
+  have : gatherAll C g cap (gatherAll C g cap Tree.empty ts0) (parseChunks C.sigLen s).1 =
+      gatherAll C g cap Tree.empty (ts0 ++ (parseChunks C.sigLen s).1) := by
+    simp [gatherAll, List.foldl_append]
+  rw [this]
+  exact gather_sound _
+
+/-- The flag of `unserialize_public` reports truthfully: `True` means the hash of EVERY chunk of the string is now a
+    key of `elements`, whatever tree the string was loaded into (with `unserialize_sound_from`: such a chunk is then
+    a signed, connected token unless the hash collides) -/
+theorem unserialize_true_all_held (tr : Tree) (s : Bytes)
+    (h : (unserializePublic C g cap tr s).2 = some true) :
+    ∀ t ∈ (parseChunks C.sigLen s).1, hasId C (unserializePublic C g cap tr s).1.els (t.id C) = true := by
+  unfold unserializePublic at h ⊢
+  simp only [] at h ⊢
+  cases hp : (parseChunks C.sigLen s).2 with
+  | false => simp [hp] at h
+  | true =>
+    simp only [hp, ↓reduceIte, Option.some.injEq] at h
+    exact flags_true_held _ _ h
+
+/-- struct.error (result `none`) happens exactly when the length of the string is not a whole number of chunks of
+    `chunkBase + sigLen` bytes; the chunks before the short one have been gathered by then (`unserialize_sound`) -/
+theorem unserialize_error_iff (tr : Tree) (s : Bytes) :
+    (unserializePublic C g cap tr s).2 = none ↔ s.length % (Gen.chunkBase + C.sigLen) ≠ 0 := by
+  unfold unserializePublic
+  simp only []
+  rw [parse_ok_iff]
+  cases h : (s.length % (Gen.chunkBase + C.sigLen) == 0) <;> simp_all
 
 /-! ### several trees of different keys in one process: what a token went through elsewhere does not matter -/
+
+/- NOTE on what these three theorems carry.  In this model tokens are immutable VALUES and a view is a list slot, so
+   "nothing carries over from another tree" cannot fail in the model whatever the code does: the theorems spell out
+   the assumption under which every other theorem of this file applies to a process with several trees (verify is a
+   function of key, plaintext and signature only), they do not establish it.  That the real Token OBJECTS behave like
+   values across calls and trees is tied by the multi-tree scenarios of the harness alone (shared objects). -/
 
 /-- Isolation: after any interleaved history of offers to any number of views (the same tokens may be shown to
     several views, in any order, any number of times), the state of view `i` is the state it would have reached
